@@ -577,6 +577,7 @@ type report struct {
 	Passes       []pass      `json:"passes"`
 	HBStates     int         `json:"distinct_happens_before_states"`
 	Pruned       int64       `json:"subtrees_pruned_as_already_visited"`
+	Truncated    int64       `json:"executions_with_more_than_20000_decision_points"`
 	Violations   []violation `json:"violations"`
 	Sample       string      `json:"sample_schedule"`
 	WallS        float64     `json:"wall_s"`
@@ -671,6 +672,10 @@ func explore(sc *scenario, minBound int, budget time.Duration) report {
 		}
 		cur.Executions++
 		res, results := runOnce(prefix)
+		if res.Truncated {
+			rep.Truncated++
+			cur.Complete = false
+		}
 		rep.Executions++
 		rep.States += int64(len(res.Points))
 		rep.Transitions += switches(res.Signature)
@@ -702,6 +707,10 @@ func explore(sc *scenario, minBound int, budget time.Duration) report {
 			return
 		}
 		for i := len(prefix); i < len(res.Points); i++ {
+			if i&1023 == 1023 && time.Since(start) > budget {
+				cur.Complete = false
+				break
+			}
 			p := res.Points[i]
 			if prune {
 				c, ok := visited[p.Key]
